@@ -261,5 +261,6 @@ def props_of_failed_check(desc, harness):
     if "unwinding assertion" in low:
         return list(harness.props), "unwinding"
     if "overflow" in low:
-        return sorted(set(harness.props) | {"C16", "C17"}) if False else list(harness.props), "overflow"
+        # an arithmetic overflow is a boundary-arithmetic matter whatever else the harness serves
+        return sorted(set(harness.props) | {"C16"}), "overflow"
     return list(harness.props), "safety"
